@@ -248,6 +248,8 @@ type RestrictedPrefixPermutationIterator struct {
 
 	l []int
 	u []int
+
+	done bool //Set once every allowed permutation has been visited.
 }
 
 //RestrictedPrefixPermutations returns an iterator which iterates over all permutations a_1 a_2 ... a_n of {0, ..., n-1} which pass the tests f([]int{a_1}), f([]int{a_1,a_2}) ... f([]int{a_1,...,a_n}).
@@ -272,6 +274,10 @@ func (iter *RestrictedPrefixPermutationIterator) Next() bool {
 	k := n - 1
 	p := 0
 	q := 0
+
+	if iter.done {
+		return false
+	}
 
 	//Initialise
 	if iter.a == nil {
@@ -315,6 +321,7 @@ x5:
 x6:
 	k--
 	if k < 0 {
+		iter.done = true
 		return false
 	}
 	p = iter.u[k]
